@@ -2,3 +2,9 @@ reg("C10", "exploration", "bounded-exhaustive enumeration of ranges/enums/(value
     "Every range(a,b,s), enum member tuple, (value, shape) pair, Const/Cat/Slice term and helper argument inside the stated bounds is "
     "executed on the real code and compared with a reference written with Python ints only; the space is enumerated completely, not sampled.",
     "Trusted: the 40-line integer reference (min_shape/wrap) in vf/props/c10.py. Bounds: |a|,|b|<=33 (130 thorough), widths<=6 (9).")
+reg("C12", "model_checking", "explicit-state BFS of the real simulated FIFO x queue model, full reachable graph, all input valuations per edge",
+    "The complete reachable state graph of the real SyncFIFO / SyncFIFOBuffered (registers + memory rows read and written through the "
+    "public testbench API) in product with a tuple queue model is enumerated for every small (depth, width); safety invariants and the "
+    "bounded-response liveness rules are evaluated on every transition; shortest paths are replayed from reset on fresh simulators.",
+    "Trusted: the Python simulator as execution vehicle (cross-checked against RTLIL by C04), the 30-line queue model. Bounds: depth<=5 "
+    "(<=12 thorough), width<=2.")
